@@ -226,6 +226,9 @@ func (d *DiskSeam) Before(c *simos.Call) *simos.Inject {
 func (d *DiskSeam) After(c *simos.Call, err error) {
 	if n := len(d.Calls); n > 0 {
 		d.Calls[n-1].N = c.N
+		if c.Path != "" {
+			d.Calls[n-1].Path = c.Path // CreateTemp knows the name only now
+		}
 		if err != nil {
 			d.Calls[n-1].Err = err.Error()
 		}
